@@ -32,7 +32,7 @@ type c03Scen struct {
 	Ops []c03Op `json:"ops"`
 	// Warm promptly acknowledged QoS1 messages are delivered before the script starts: with max_inflight 1 the
 	// broker consumes exactly one packet id per message, so 65534 of them put the id counter at the 65535 boundary.
-	Warm int `json:"warm,omitempty"`
+	Warm  int  `json:"warm,omitempty"`
 	Redis bool `json:"redis,omitempty"` // session queue on the redis backend (harness RESP server)
 }
 
